@@ -54,7 +54,7 @@ fn gen(g: &mut G, thorough: bool) -> Plan {
     let origin_port = if g.chance(1, 3) { Some(8443u16) } else { None };
     let proxy_https = g.chance(1, 4);
     // name-confusion variant: the proxy is called wrong.test and the origin presents a certificate for wrong.test only
-    let confusion = origin_host == "secure.test" && g.chance(1, 6);
+    let confusion = (origin_host == "secure.test" || origin_host == "10.0.0.5") && g.chance(1, 5);
     let proxy_host = if confusion { "wrong.test" } else { "proxy.test" };
     let cred = match g.below(4) {
         0 => Some(("puser", Some("ppass"))),
@@ -132,7 +132,152 @@ enum Res {
     Err(String),
 }
 
+/// Two-step family: a plain http request goes through the forward proxy (whose URL carries
+/// credentials), is redirected to an https URL and continues through a CONNECT tunnel.  Nothing that
+/// belongs to the proxy leg may reach the origin inside the tunnel.
+fn redirect_family(g: &mut G, ctx: &RunCtx) -> RunReport {
+    use crate::tlspeer::DualProxy;
+    let status = *g.pick(&[301u16, 302, 303, 307, 308]);
+    let cred = *g.pick(&["puser:ppass@", "onlyuser@", ""]);
+    let sim = Sim::new(ctx.sim_config());
+    let seen_fwd = Arc::new(Mutex::new(Seen::default()));
+    let seen_inner = Arc::new(Mutex::new(Seen::default()));
+    let tls_log = Arc::new(Mutex::new(TlsLog::default()));
+    let proxy_log = Arc::new(Mutex::new(ProxyLog::default()));
+    let proxy_ip: IpAddr = "10.0.0.9".parse().unwrap();
+    sim.add_host("proxy.test", vec![proxy_ip]);
+    sim.add_host("secure.test", vec!["10.0.0.5".parse().unwrap()]);
+    sim.add_host("plain.test", vec!["10.0.0.6".parse().unwrap()]);
+    {
+        let sf = seen_fwd.clone();
+        let si = seen_inner.clone();
+        let tl = tls_log.clone();
+        let pl = proxy_log.clone();
+        sim.add_listener(
+            proxy_ip,
+            3128,
+            ConnectBehaviour::Accept { latency_ns: NS_PER_MS },
+            Some(Box::new(move |_i| {
+                let sf = sf.clone();
+                let si = si.clone();
+                let tl = tl.clone();
+                let pl = pl.clone();
+                Box::new(DualProxy::new(
+                    Box::new(move |_c| {
+                        Box::new(HttpPeer::new(
+                            Arc::new(move |_r, _c| {
+                                let mut s = Script::default();
+                                s.acts.push(Act::Send(format!("HTTP/1.1 {} Moved\r\nLocation: https://secure.test/private/path?q=1\r\nContent-Length: 0\r\n\r\n", status).into_bytes()));
+                                s.acts.push(Act::Fin);
+                                s
+                            }),
+                            sf.clone(),
+                        ))
+                    }),
+                    Box::new(move |conn| {
+                        let si = si.clone();
+                        let tl = tl.clone();
+                        let mut reply = Script::default();
+                        reply.acts.push(Act::Send(b"HTTP/1.1 200 Connection established\r\n\r\n".to_vec()));
+                        Box::new(ConnectProxy::new(
+                            reply,
+                            true,
+                            Box::new(move |_a, c2| {
+                                let inner = HttpPeer::new(
+                                    Arc::new(|_r, _c| {
+                                        let mut s = Script::default();
+                                        s.acts.push(Act::Send(b"HTTP/1.1 200 OK\r\nContent-Length: 6\r\n\r\ninside".to_vec()));
+                                        s.acts.push(Act::Fin);
+                                        s
+                                    }),
+                                    si.clone(),
+                                );
+                                Some(Box::new(TlsPeer::new("good", Box::new(inner), tl.clone(), c2)) as Box<dyn attosim::Peer>)
+                            }),
+                            pl.clone(),
+                            conn,
+                        ))
+                    }),
+                ))
+            })),
+        );
+    }
+    let proxy_url = format!("http://{}proxy.test:3128", cred);
+    let out = sim.run(|| {
+        let u = url::Url::parse(&proxy_url).unwrap();
+        let ps = attohttpc::ProxySettings::builder().http_proxy(u.clone()).https_proxy(u).build();
+        let r = attohttpc::post("http://plain.test/start")
+            .proxy_settings(ps)
+            .add_root_certificate(ca_cert())
+            .header("X-Secret-Marker", MARK_H)
+            .text(format!("body with {} inside", MARK_B))
+            .send();
+        match r {
+            Ok(resp) => Res::Ok(resp.status().as_u16(), resp.bytes().unwrap_or_default()),
+            Err(e) => Res::Err(err_kind(&e)),
+        }
+    });
+    let mut stats = Stats::default();
+    stats.absorb(&out.history);
+    let verdict = (|| -> Verdict {
+        let res = match &out.result {
+            None => return violation("hang:redirect-family", "torn down"),
+            Some(Err(m)) => return violation(format!("panic:{}", crate::props::c02::panic_site(m)), m.clone()),
+            Some(Ok(r)) => r,
+        };
+        match res {
+            Res::Ok(200, b) if b == b"inside" => {}
+            Res::Ok(st, _) => return violation("redirect-family:unexpected-result", format!("status {}", st)),
+            Res::ConnectError(st, _) => return violation("redirect-family:unexpected-result", format!("ConnectError {}", st)),
+            Res::Err(k) => return violation(format!("redirect-family:failed:{}", k), format!("http -> {} -> https through the proxy failed with {}", status, k)),
+        }
+        let si = seen_inner.lock().unwrap();
+        let Some((_, Ok(ir))) = si.requests.first() else {
+            return violation("inner-request-missing", "no well-formed request arrived inside the tunnel".to_string());
+        };
+        if !ir.header_all("proxy-authorization").is_empty() {
+            return violation(
+                "proxy-credentials-forwarded",
+                format!("after the redirect from the proxied http hop, Proxy-Authorization {:?} was sent to the origin inside the tunnel", ir.header_str("proxy-authorization")),
+            );
+        }
+        if ir.header_str("host").as_deref() != Some("secure.test") || ir.target != "/private/path?q=1" {
+            return violation("inner-host", format!("inside the tunnel: target {:?}, Host {:?}", ir.target, ir.header_str("host")));
+        }
+        if ir.header_str("x-secret-marker").as_deref() != Some(MARK_H) {
+            return violation("inner-request-damaged", "the caller's header was lost on the tunnelled hop".to_string());
+        }
+        // the CONNECT of the second hop
+        let pl = proxy_log.lock().unwrap();
+        if let Some(pc) = pl.conns.iter().find(|c| !c.head.is_empty()) {
+            if pc.authority != "secure.test:443" {
+                return violation("connect-authority", format!("CONNECT {}", pc.authority));
+            }
+            for needle in [MARK_H.as_bytes(), MARK_B.as_bytes()] {
+                if pc.head.windows(needle.len()).any(|w| w == needle) {
+                    return violation("leak-in-clear:connect-head", "request data appears in the CONNECT head".to_string());
+                }
+            }
+        } else {
+            return violation("no-connect-at-proxy", "the https hop did not go through CONNECT".to_string());
+        }
+        Verdict::Pass
+    })();
+    RunReport {
+        verdict,
+        shape: format!("redirect-family/{}/cred={}", status, cred),
+        nontrivial: true,
+        stats,
+        sched_tape: out.sched_tape,
+        describe: if ctx.describe { format!("redirect family: POST http://plain.test/start via {} -> {} -> https://secure.test/private/path?q=1 (tunnelled)", proxy_url, status) } else { String::new() },
+    }
+}
+
 pub fn scenario(g: &mut G, ctx: &RunCtx) -> RunReport {
+    if g.chance(1, 8) {
+        g.probe("http-hop-via-proxy-then-https-tunnel");
+        return redirect_family(g, ctx);
+    }
     let p = gen(g, ctx.thorough);
     let sim = Sim::new(ctx.sim_config());
     let seen = Arc::new(Mutex::new(Seen::default()));
@@ -364,6 +509,10 @@ pub fn scenario(g: &mut G, ctx: &RunCtx) -> RunReport {
             if let Some(ts) = ts {
                 if is_domain && ts.sni.as_deref() != Some("secure.test") {
                     return violation("sni-not-origin", format!("SNI inside the tunnel is {:?}, origin is secure.test (proxy {})", ts.sni, p.proxy_host));
+                }
+                // an IP-literal origin has no name to announce; whatever is announced must not be the proxy's name
+                if !is_domain && ts.sni.as_deref() == Some(p.proxy_host) {
+                    return violation("sni-not-origin", format!("SNI inside the tunnel is the proxy's name {:?}, origin is {}", ts.sni, p.origin_host));
                 }
             }
             let expect_ok = p.inner_cert == "good" && p.origin_host != "[2001:db8::5]";
